@@ -800,6 +800,11 @@ def unmarshal_array(ct, data, offset, lendian, oobFDs):
         nbytes, value = unmarshallers[tcode](
             tsig, data, offset, lendian, oobFDs)
 
+        if nbytes == 0:
+            # an element type of zero size (e.g. 'a()') can never reach
+            # end_offset
+            raise MarshallingError('Invalid array encoding')
+
         offset += nbytes
         values.append(value)
 
